@@ -32,6 +32,9 @@ OBLIGATIONS = [
     "Grog.C09.old_collision_witnesses",
     "Grog.C09.old_dup_input_witness",
     "Grog.C09.outHash_inj",
+    "Grog.C09.serOutput_injective",
+    "Grog.C09.outHash_outputs_inj",
+    "Grog.C09.outHash_order_independent",
 ]
 ASSUMPTIONS = [
     "hash function injective on the streams that occur (explicit hypothesis of key_eq_iff; example instantiates it)",
